@@ -48,4 +48,30 @@ BUILT["C20"] = dict(engine="parser-state-explorer", technique="exhaustive produc
                         "depth are judged (accept exactly the allowed uses, arguments under the defined names, round trip, sibling stays unknown)",
                    note=_PARSER_NOTE, design_ref="3 C20")
 
+_WIRE_NOTE = 'trusted base: reference RFC 5804 server / strict command parser / virtual socket in /verif/mc/refms.py, CPython; no real network, TLS or timers'
+BUILT["C05"] = dict(engine="wire-explorer", technique='exhaustive enumeration of recv() segmentations (all 1-/2-/3-cut placements, byte caps) x bounded-exhaustive reply grammar, differential vs unsegmented run',
+                   text='every operation x every reply of the bounded reply grammar x every single cut, every pair (short replies), caps 1/2/3/7/64, each followed by two sentinel operations; all observables must equal the unsegmented baseline',
+                   note=_WIRE_NOTE, design_ref='3 C05')
+BUILT["C08"] = dict(engine="wire-explorer", technique='exhaustive product of operations x hostile argument strings; strict RFC 5804 command parser on the captured bytes',
+                   text="every string up to the length bound over a hostile alphabet plus look-alikes in every argument position; the bytes written must parse as exactly one command of the intended verb decoding to the caller's values",
+                   note=_WIRE_NOTE, design_ref='3 C08')
+BUILT["C09"] = dict(engine="wire-explorer", technique='exhaustive product of operations x status reply shapes + single NO/BYE fault at each step of multi-step operations',
+                   text='9 operations x 105 status reply shapes; NO/BYE at each step of connect (with/without STARTTLS) and emulated rename; result, errcode, errmsg and exception class are judged against the reply',
+                   note=_WIRE_NOTE, design_ref='3 C09')
+BUILT["C10"] = dict(engine="wire-explorer", technique='exhaustive call histories over introspected public API x handshake fault placements x capability sets; monitor automaton over plain/TLS write logs',
+                   text='every public method before connect, after connect and after a second connect, under every single (thorough: pair of) handshake fault, TLS wrap failure and capability set; no script verb without AUTHENTICATE OK on that connection, no AUTHENTICATE before TLS',
+                   note=_WIRE_NOTE, design_ref='3 C10')
+BUILT["C14"] = dict(engine="wire-explorer", technique='exhaustive product of initial stores x fault placements x bodies against an executable reference server; store-level invariant',
+                   text="19 initial stores x 6 bodies x every single (thorough: pair of) fault on the five verbs of the emulation; the reference server's store before/after is judged (nothing lost, nothing else touched, True implies renamed)",
+                   note=_WIRE_NOTE, design_ref='3 C14')
+BUILT["C15"] = dict(engine="wire-explorer", technique='explicit-state BFS over operation histories (state = reference server store) x deviation-bounded DFS over server choices and recv cuts',
+                   text="all histories of 16 events to depth 3/4 from 3 stores with and without VERSION; every server choice (encodings, quota/NO outcomes, recv cuts) up to 1/2 deviations; each result must equal the reference server's own answer, no unread bytes, no protocol violation",
+                   note=_WIRE_NOTE, design_ref='3 C15')
+BUILT["C16"] = dict(engine="wire-explorer", technique='exhaustive product of announced SASL lists x authmech x credentials x verdict; payload decoded and recomputed per mechanism RFC',
+                   text='all subsets/orders of 5 mechanisms x 7 authmech arguments x 6 credential triples x OK/NO; mechanism selection rule, decoded PLAIN/LOGIN/OAUTHBEARER payloads and the recomputed RFC 2831 response are compared',
+                   note=_WIRE_NOTE, design_ref='3 C16')
+BUILT["C17"] = dict(engine="wire-explorer", technique="exhaustive product of look-alike bodies / name sets x every permitted encoding against the reference server's store",
+                   text='every body of <= 2/3 lines over the look-alike pool x line endings x final newline x literal/quoted; every set of <= 2/3 names x active position x every per-name encoding',
+                   note=_WIRE_NOTE, design_ref='3 C17')
+
 NOT_BUILT = {}
